@@ -578,7 +578,10 @@ N(style, small, carry) == CASE style = "small" -> <<Tok(small)>>
                             [] OTHER -> carry
 FracStyles == { <<>>, <<".", "5">>, <<".", "0", "0", "0", "0", "0", "0", "0", "0", "1">>,
                 <<".", "9", "9", "9", "9", "9", "9", "9", "9", "9">>, <<".", "5", "0">>,
-                <<".", "1", "2", "3", "4", "5", "6", "7", "8", "9", "1">>, <<".", "2", "9">> }
+                <<".", "1", "2", "3", "4", "5", "6", "7", "8", "9", "1">>, <<".", "2", "9">>,
+                \* xsd:duration puts no bound on the number of fraction digits: twenty of them, beyond any machine integer
+                <<".">> \o [i \in 1..20 |-> "0"], <<".">> \o [i \in 1..20 |-> "9"],
+                <<".", "5">> \o [i \in 1..24 |-> "0"] }
 Opt(b, s) == IF b THEN s ELSE <<>>
 TemplStr(sg, yP, moP, dP, tP, hP, miP, sP, st, fr) ==
   Opt(sg, <<"-">>) \o <<"P">>
@@ -589,7 +592,8 @@ TemplStr(sg, yP, moP, dP, tP, hP, miP, sP, st, fr) ==
 DurStrT == { TemplStr(sg, yP, moP, dP, tP, hP, miP, sP, st, fr) :
                sg \in BOOLEAN, yP \in BOOLEAN, moP \in BOOLEAN, dP \in BOOLEAN, tP \in BOOLEAN,
                hP \in BOOLEAN, miP \in BOOLEAN, sP \in BOOLEAN, st \in NumStyle,
-               fr \in IF Q THEN { <<>>, <<".", "5">>, <<".", "1", "2", "3", "4", "5", "6", "7", "8", "9", "1">> } ELSE FracStyles }
+               fr \in IF Q THEN { <<>>, <<".", "5">>, <<".", "1", "2", "3", "4", "5", "6", "7", "8", "9", "1">>,
+                                   <<".">> \o [i \in 1..20 |-> "9"] } ELSE FracStyles }
 
 \* family S: every sequence of at most SLen lexical items (reject side: wrong order,
 \* repeated or missing parts, stray characters)
